@@ -144,7 +144,7 @@ func build(cs Case) modeling.Mesh {
 // ---- analytic description of each solid (reference side) ----
 
 func (cs Case) scale() float64 {
-	return math.Max(math.Max(math.Max(cs.R, cs.H), math.Max(cs.W, cs.D)), 1e-3)
+	return math.Max(math.Max(cs.R, cs.H), math.Max(cs.W, cs.D))
 }
 
 // interior is a point strictly inside the solid (all solids here are convex).
@@ -535,6 +535,39 @@ func run(c *core.Ctx) {
 		}
 		if c.Expired() {
 			return
+		}
+	}
+	// magnitude: a cross-section of the grids at sizes from 2^-20 to 2^20 and 1e-6 to 1e6 (every tolerance
+	// of the oracle is relative to the solid's size; an absolute epsilon, rounding or clamp inside a
+	// constructor shows only here)
+	sig := []float64{0x1p-20, 0x1p-10, 0x1p10, 0x1p20, 1e-6, 1e-3, 1e3, 1e6}
+	c.Bound("magnitudes", sig)
+	for _, sg := range sig {
+		for _, b := range [][3]float64{{1, 1, 1}, {0.5, 3, 1}, {3, 0.37, 1}} {
+			for _, kind := range []string{"cube-welded", "cube-quads"} {
+				for _, uv := range []string{"none", "default"} {
+					if c.Next() {
+						one(c, Case{Kind: kind, W: b[0] * sg, H: b[1] * sg, D: b[2] * sg, UV: uv})
+					}
+				}
+			}
+			for _, sides := range []int{3, 4, 7, 16} {
+				for _, uv := range []string{"none", "all"} {
+					if c.Next() {
+						one(c, Case{Kind: "cylinder", Sides: sides, R: b[0] * sg, H: b[1] * sg, UV: uv})
+					}
+				}
+			}
+			for _, rc := range [][2]int{{2, 3}, {3, 4}, {5, 8}, {9, 7}} {
+				for _, kind := range []string{"uvsphere", "uvsphere-unwelded"} {
+					if c.Next() {
+						one(c, Case{Kind: kind, Rows: rc[0], Cols: rc[1], R: b[0] * sg})
+					}
+				}
+				if c.Next() {
+					one(c, Case{Kind: "hemisphere", Rows: rc[0], Cols: rc[1], R: b[0] * sg, Capped: true})
+				}
+			}
 		}
 	}
 	for _, kind := range []string{"ladder-uvsphere", "ladder-uvsphere-unwelded", "ladder-hemisphere", "ladder-cylinder"} {
